@@ -1426,6 +1426,26 @@ package gocql
 // psum(buffers,k) = total length of the first k frames (spec/int.smt2).
 // ---------------------------------------------------------------------------
 
+// The coalescing goroutine: requests are queued in arrival order, one result channel per request; the queue is
+// written only when the timer fires; once the connection is closed (quit) nothing more is written - everybody
+// still queued is told (0, error) - and the goroutine ends.
+//@ func (w *writeCoalescer) writeFlusherImpl
+//@   props C07
+//@   count_calls flush
+//@   requires w != nil && w.c != nil && w.writeCh != nil && w.quit != nil
+// channels of different element types are different objects
+//@   requires smt("bool", "(and (not (= $1 $2)) (not (= $1 $3)) (not (= $2 $3)))", timerC, w.quit, w.writeCh)
+//@   assume io.EOF != nil
+// every request brings its own fresh result channel and a non-empty frame (writeContext makes them)
+//@   assume_recv ch == w.writeCh ==> val.resultChan != nil && len(val.data) > 0 && forall(k, 0 <= k && k < len(resultChans), val.resultChan != resultChans[k])
+//@   before[C07] flush: selrecvd(w.quit) == 0 && same(arg1, resultChans) && same(arg2, buffers)
+//@   before_send[C07] selrecvd(w.quit) == 1 && val.n == 0 && val.err != nil
+//@   at_return[C07] selrecvd(w.quit) == 1
+//@   loop 0: invariant selrecvd(w.quit) == 0 && len(resultChans) == len(buffers) && w != nil && w.c != nil && w.writeCh != nil && w.quit != nil
+//@   loop 0: invariant forall(i, 0 <= i && i < len(resultChans), resultChans[i] != nil) && forall(k, 0 <= k && k < len(buffers), len(buffers[k]) > 0)
+//@   loop 0: invariant forall(i, 0 <= i && i < len(resultChans), forall(j, i < j && j < len(resultChans), resultChans[i] != resultChans[j]))
+//@   loop 1: invariant selrecvd(w.quit) == 1
+
 //@ func (w *writeCoalescer) flush
 //@   props C07
 //@   mode int
